@@ -113,6 +113,13 @@ OrphanedOnValidator(s, v, a) ==
   /\ a \in DOMAIN s.assets
   /\ IsZero(TruncInt(Get(Info(s, v).dshares, a)))
   /\ ~IsZero(TruncInt(ValTokens(s.assets[a], Info(s, v), a)))
+\* K8 (second mechanism): the share price on v has grown so far (slashes of other validators concentrate value) that the
+\* 0.01-share margin of ValidateDelegatedAmount ("withdraw all when the difference is below the rounder") is worth a token or
+\* more: a withdrawal of a few tokens then takes the whole position
+PriceInflated(s, v, a) ==
+  /\ a \in DOMAIN s.assets
+  /\ IsPos(Get(Info(s, v).dshares, a))
+  /\ BLe(BMul("100", Get(Info(s, v).dshares, a)), ValTokens(s.assets[a], Info(s, v), a))
 UnbEntries(s) == {<<k, i>> : k \in DOMAIN s.unbQ, i \in 1..0} \cup UNION {{<<k, i>> : i \in DOMAIN s.unbQ[k]} : k \in DOMAIN s.unbQ}
 UnbSum(s, a) == BSum({x \in UnbEntries(s) : s.unbQ[x[1]][x[2]].a = a}, LAMBDA x : s.unbQ[x[1]][x[2]].bal)
 
@@ -585,7 +592,7 @@ C04_Step(pre, rec, post) ==
                  "a reward claim changed a staked value")
       ELSE IF a \notin DOMAIN pre.assets \/ a \notin DOMAIN post.assets THEN {}
       ELSE LET kf == IF OrphanedTotal(pre, a) \/ OrphanedTotal(post, a) THEN "K3b"
-                     ELSE IF \E k \in actorKeys : OrphanedOnValidator(pre, k[2], a) THEN "K8"
+                     ELSE IF \E k \in actorKeys : OrphanedOnValidator(pre, k[2], a) \/ (delta(k) # e.x /\ PriceInflated(pre, k[2], a)) THEN "K8"
                      ELSE "" IN
            UNION {
              IF k \in actorKeys
